@@ -10,13 +10,15 @@ abbrev St := _root_.Unit
 def init : St := ()
 def modelName : String := "drange"
 
-/-- `N` | `(int n)` | `(npint <numpy type> n)` | `(td us)` | `(p <hex of the period string>)` -/
+/-- `N` | `(int n)` | `(npint <numpy type> n)` | `(td us)` | `(tdpd us)` | `(tdnp us)` | `(p <hex of the period string>)` -/
 def bumpOf : Sexp → Option Bump
   | .atom "N" => some .none
   | .node [.atom "int", n] => n.toInt?.map .int
   | .node [.atom "npint", _, n] => n.toInt?.map .int      -- the same integer held by a numpy scalar (`is_int` admits np.int8..int64): an integer is an integer (C10-D1)
   | .node [.atom "td", n] => n.toInt?.map .td
   | .node [.atom "tdpd", n] => n.toInt?.map .td         -- the same duration as a `pd.Timedelta` (a subclass of `datetime.timedelta`: `isinstance` holds)
+  -- the same duration as a `np.timedelta64` (numpy's timedelta: the ruling of C09-D1 holds for drange too - defect C10-D2, review5 w3 §2-2)
+  | .node [.atom "tdnp", n] => n.toInt?.map .td
   | .node [.atom "p", .atom h] => do
       let s ← hexDecode h
       let ps ← parsePeriod s
